@@ -434,6 +434,36 @@ pub fn main(args: &[String]) {
             let reps = arg_u64(args, "--reps", 4) as usize;
             histories = odds_book(&mut tr, &book, &mut rng, reps, arg_u64(args, "--max-nodes", 80) as usize);
         }
+        "longgame" => {
+            // "after any legal history": long capture-free shuffles (the half-move clock passes the draw
+            // threshold, positions recur three times and more) with the engine asked at every ply
+            let rounds = arg_u64(args, "--rounds", 30) as usize;
+            for (gi, (fen, cyc)) in SHUFFLES.iter().enumerate() {
+                let c: Vec<&str> = cyc.split_whitespace().collect();
+                let mut game = Game::from_board(crate::trace::parse_fen(fen).setup(), 1 + (gi % 2) as u8);
+                tr.reset(&game);
+                let mut ply = 0;
+                'g: for _ in 0..rounds {
+                    for u in &c {
+                        let ch: Vec<char> = u.chars().collect();
+                        let f = (ch[0] as u8 - b'a') + (ch[1] as u8 - b'1') * 8 + 1;
+                        let t = (ch[2] as u8 - b'a') + (ch[3] as u8 - b'1') * 8 + 1;
+                        match tr.coords(&mut game, &[(f, t)]) {
+                            Ok(Some(_)) => tr.toggle(&mut game),
+                            _ => break 'g,
+                        }
+                        ply += 1;
+                        // every ply near the interesting boundaries, every fourth elsewhere
+                        if ply <= 14 || (ply >= 96 && ply <= 104) || ply % 4 == 1 {
+                            if !tr.engine_move(&mut game, true) || !tr.engine_move(&mut game, false) {
+                                break 'g;
+                            }
+                        }
+                    }
+                }
+                histories += 1;
+            }
+        }
         "offbook" => {
             // supplied boards and random continuations: the engine must still answer with a legal move
             for g in 0..games {
